@@ -18,6 +18,11 @@ pub fn run(o: &Opts) -> Report {
         // the tail-receiving positional takes bytes as they are
         cv.cmd.args[lastp].delim = None;
         if rng.chance(1, 2) { cv.cmd.args[lastp].vp = Some(VpS::Os); }
+        // exotic value settings on the collecting args: negative numbers / hyphen values
+        let neg = rng.chance(1, 3);
+        if neg { for &i in cv.opts.iter().chain(cv.pos.iter()) { if rng.chance(1, 2) { cv.cmd.args[i].allow_negative = true; } } }
+        let hyph = !neg && rng.chance(1, 5);
+        if hyph { for &i in cv.opts.iter() { if rng.chance(1, 2) { cv.cmd.args[i].allow_hyphen = true; } } }
         let use_last = rng.chance(1, 4);
         if use_last { cv.cmd.args[lastp].last = true; }
         if rng.chance(1, 2) { cv.cmd.subs.push(CmdS { name: "sub1".into(), args: vec![ArgS { id: "x".into(), long: Some("xx".into()), action: Some("setTrue"), ..Default::default() }], ..Default::default() }); cv.cmd.settings.infer_subcommands = rng.chance(1, 3); }
@@ -36,12 +41,19 @@ pub fn run(o: &Opts) -> Report {
             let mut tail = tail;
             if rng.chance(1, 3) { tail.push(b"sub1".to_vec()); }
             inv.tail = Some(tail.clone());
-            let argv = render(&mut rng, &cv, &inv, false);
+            let mut argv = render(&mut rng, &cv, &inv, false);
+            // sometimes the arg that is collecting when `--` arrives has just taken a negative number
+            if neg && rng.chance(1, 2) { let at = argv.len() - tail.len() - 1; argv.insert(at, rng.pick(&["-1", "-2.5", "-3e4"]).as_bytes().to_vec()); }
             let pre: Vec<Vec<u8>> = argv[..argv.len() - tail.len() - 1].to_vec();
+            // an option that takes hyphen values may legitimately swallow the `--` (documented); skip those lines
+            if hyph { let (c0, _, _) = real_parse(&cv.cmd, &pre); let _ = c0; }
             let (canon, mm, err) = real_parse(&cv.cmd, &argv);
             let (_, pm, _) = real_parse(&cv.cmd, &pre);
             let req = parse_request(&cv.cmd, &argv);
             match (&mm, &err) {
+                // an option taking hyphen values may legitimately swallow `--` and what follows (documented exemption):
+                // those lines only go through the model comparison
+                (Some(_), _) | (None, Some(_)) if hyph => {}
                 (Some(m), _) => {
                     if m.subcommand_name().is_some() { rep.oracle_fail("tail-token-dispatched-a-subcommand", &req, &format!("{:?}", m.subcommand_name())); }
                     // positional values, in index order
@@ -51,7 +63,7 @@ pub fn run(o: &Opts) -> Report {
                         let mut exp = posvals(pmt);
                         // splitting of earlier (single) positionals at their delimiter is the same in both parses
                         exp.extend(tail.iter().cloned());
-                        if got != exp { rep.oracle_fail("tail-not-delivered-verbatim", &req, &format!("positionals got {:?} expected {:?}", got.iter().map(|v| String::from_utf8_lossy(v).to_string()).collect::<Vec<_>>(), exp.iter().map(|v| String::from_utf8_lossy(v).to_string()).collect::<Vec<_>>())); }
+                        if got != exp && !hyph { rep.oracle_fail("tail-not-delivered-verbatim", &req, &format!("positionals got {:?} expected {:?}", got.iter().map(|v| String::from_utf8_lossy(v).to_string()).collect::<Vec<_>>(), exp.iter().map(|v| String::from_utf8_lossy(v).to_string()).collect::<Vec<_>>())); }
                         for &i in cv.opts.iter().chain(cv.flags.iter()) {
                             let id = &cv.cmd.args[i].id;
                             let a: Vec<Vec<u8>> = m.get_raw(id).map(|r| r.map(|v| v.as_bytes().to_vec()).collect()).unwrap_or_default();
@@ -63,7 +75,7 @@ pub fn run(o: &Opts) -> Report {
                 (None, Some(e)) => {
                     match e.kind() {
                         ErrorKind::DisplayHelp | ErrorKind::DisplayVersion | ErrorKind::InvalidSubcommand | ErrorKind::DisplayHelpOnMissingArgumentOrSubcommand => rep.oracle_fail("tail-token-interpreted", &req, &format!("{:?}", e.kind())),
-                        ErrorKind::UnknownArgument if pm.is_some() => rep.oracle_fail("tail-token-interpreted", &req, &format!("UnknownArgument although the prefix alone parses: argv={:?}", argv.iter().map(|a| String::from_utf8_lossy(a).to_string()).collect::<Vec<_>>())),
+                        ErrorKind::UnknownArgument if pm.is_some() && !hyph => rep.oracle_fail("tail-token-interpreted", &req, &format!("UnknownArgument although the prefix alone parses: argv={:?}", argv.iter().map(|a| String::from_utf8_lossy(a).to_string()).collect::<Vec<_>>())),
                         _ => {}
                     }
                 }
